@@ -790,6 +790,66 @@ def t_huge_activation(rng):
   return _single(rng, f, 'huge_activation')
 
 
+def t_sequence(rng):
+  """[1, seq, features] -> FC (keep_num_dims) -> TANH -> FC: every operator works for any sequence length, so the interpreter can be fed
+  samples of DIFFERENT shapes (the signature runner resizes the input)."""
+  def f(g, rng):
+    x = g.inp((1, 2, 8))
+    g.sg.tensors[x].shapeSignature = [1, -1, 8]
+    y = g.fc(x, 6, keep=True)
+    z = g.fc(g.tanh(y), 4, keep=True, bias=bool(rng.random() < 0.5))
+    g.classes.add('dynamic_sequence_length')
+    return [z]
+  return _single(rng, f, 'sequence')
+
+
+def t_very_deep(rng):
+  """100-140 x [FULLY_CONNECTED -> TANH]: more than 255 operators once QUANTIZE / DEQUANTIZE operators are inserted (operator ids, position
+  bookkeeping and tables that silently assume a small graph)."""
+  def f(g, rng):
+    x = g.inp((1, 8))
+    for _ in range(int(rng.integers(100, 141))):
+      x = g.tanh(g.fc(x, 8, bias=bool(rng.random() < 0.3)))
+    g.classes.add('more_than_255_operators')
+    return [x]
+  return _single(rng, f, 'very_deep')
+
+
+def t_while(rng):
+  """Control flow as the converter emits it for tf.while_loop: the signature's subgraph holds a WHILE operator whose condition and body
+  are further subgraphs WITHOUT a signature; the body contains a quantizable operator."""
+  b = B()
+  g = G(b, 'main', 'm/', rng)
+  x = g.inp((1, 4))
+  i0 = g.const('i0', np.asarray(0, dtype=np.int32).reshape(()))
+  io = b.act(g.sg, 'm/i_out', (), TT.INT32)
+  y = g.act('while_out', (1, 4))
+  o = S.WhileOptionsT()
+  o.condSubgraphIndex, o.bodySubgraphIndex = 1, 2
+  g.op(BO.WHILE, [i0, x], [io, y], o, S.BuiltinOptions.WhileOptions)
+  z = g.fc(y, 3) if rng.random() < 0.7 else g.tanh(y)
+  g.classes.update(('control_flow', 'unsupported_op'))
+  g.finish([z], 'serving_default')
+  c = G(b, 'cond', 'c/', rng)
+  ci = b.act(c.sg, 'c/i', (), TT.INT32)
+  cx = c.act('x', (1, 4))
+  c.sg.inputs = [ci, cx]
+  lim = c.const('limit', np.asarray(int(rng.integers(1, 4)), dtype=np.int32).reshape(()))
+  cb = b.act(c.sg, 'c/less', (), TT.BOOL)
+  c.op(BO.LESS, [ci, lim], [cb], S.LessOptionsT(), S.BuiltinOptions.LessOptions)
+  c.sg.outputs = [cb]
+  d = G(b, 'body', 'b/', rng)
+  di = b.act(d.sg, 'b/i', (), TT.INT32)
+  dx = d.act('x', (1, 4))
+  d.sg.inputs = [di, dx]
+  one = d.const('one', np.asarray(1, dtype=np.int32).reshape(()))
+  dn = b.act(d.sg, 'b/i_next', (), TT.INT32)
+  d.op(BO.ADD, [di, one], [dn], S.AddOptionsT(), S.BuiltinOptions.AddOptions)
+  dy = d.tanh(d.fc(dx, 4))
+  d.sg.outputs = [dn, dy]
+  return _spec(b, [g], 'while')
+
+
 def t_producer_zero_float_out(rng):
   """Operator 0 is quantizable, its output feeds an op outside the table and a supported op."""
   def f(g, rng):
@@ -945,7 +1005,7 @@ def t_all_unsupported(rng):
 
 TEMPLATES = [t_output_also_consumed, t_producer_zero_float_out, t_repeated_operand,
              t_unsupported_between, t_multi_group, t_shared_const_tensor, t_shared_buffer,
-             t_chain, t_weight_chain, t_duplicate_output, t_passthrough]
+             t_chain, t_weight_chain, t_duplicate_output, t_passthrough, t_very_deep, t_while]
 
 
 def model_for_case(rng, multi_sub_p=0.0, template_p=0.15, shuffle_p=0.15, alias_p=0.25, **kw):
